@@ -253,7 +253,10 @@ def two_host_cases(quick):
                                 ops += ["eof 1 %s" % sb, "drain 1 %s" % sb]
                             ib += 1
                     ops += ["flush 0", "flush 1"]
-                    out.append(explicit(T, True, False, {(0, sa): list(ca), (1, sb): list(cb)}, ops, ["two-hosts-exhaustive"]))
+                    # every third case with -N: a line that arrives in two reads must still be ONE stdio call
+                    # although no label marks its beginning (seeded C06-12)
+                    out.append(explicit(T, k % 3 != 0, False, {(0, sa): list(ca), (1, sb): list(cb)}, ops,
+                                        ["two-hosts-exhaustive"] + ([] if k % 3 else ["-N"])))
     return out
 
 
